@@ -486,3 +486,61 @@ def list_builder(fn):
         if len(inner) == 1 and isinstance(inner[0], ast.Expr) and isinstance(inner[0].value, ast.Call) and ast.unparse(inner[0].value.func) == f'{L}.append' and len(inner[0].value.args) == 1:
             return {'elt': inner[0].value.args[0], 'target': body[1].target, 'iter': body[1].iter, 'ifs': ifs}
     return None
+
+
+# ---- documented defaults (K13) ------------------------------------------------------------------------------
+
+def _canon_default(x):
+    x = x.strip().rstrip('.').strip()
+    try:
+        v = ast.literal_eval(x)
+        if isinstance(v, (int, float)) and not isinstance(v, bool):
+            return repr(float(v))
+        return repr(v)
+    except Exception:
+        return x.replace(' ', '').replace('"', "'")
+
+
+def documented_default(P, cname, method, param):
+    """(documented, signature, kind) for one parameter: kind 'default' when the numpydoc entry says `default=X`, 'optional' when it says
+    optional (no value documented), None when the parameter is not documented.  Values are canonical strings (0 == 0.0)."""
+    import re
+    c = P.cls(cname)
+    fn = P.method(c, method)[1]
+    doc = (ast.get_docstring(c.node) if method == '__init__' else ast.get_docstring(fn)) or ''
+    a = fn.args
+    params = a.posonlyargs + a.args
+    d = dict(zip([p_.arg for p_ in params][len(params) - len(a.defaults):], a.defaults))
+    sig = _canon_default(ast.unparse(d[param])) if param in d else None
+    m = re.search(r'^\s*' + re.escape(param) + r'\s*:\s*[^\n]*?default\s*=\s*([^\n]+?)\s*$', doc, re.M)
+    if m:
+        return _canon_default(m.group(1)), sig, 'default'
+    if re.search(r'^\s*' + re.escape(param) + r'\s*:\s*[^\n]*optional', doc, re.M):
+        return None, sig, 'optional'
+    return None, sig, None
+
+
+def check_defaults(ctx, o, triples, unbounded=()):
+    """K13 for the listed (class, method, parameter) triples: the signature default equals the documented default; a parameter documented
+    as optional whose absence means "unbounded" (listed in `unbounded`) defaults to +infinity or None"""
+    P = ctx.P
+    for cname, method, param in triples:
+        if not P.has_cls(cname) or not P.has_method(cname, method):
+            continue
+        o.count()
+        doc, sig, kind = documented_default(P, cname, method, param)
+        c = P.cls(cname)
+        fn = P.method(c, method)[1]
+        if sig is None:
+            o.fail(P, f'{cname}.{method}', f'{param}=<default>', f'the parameter {param} no longer has a default value', file=c.mod.path, line=fn.lineno)
+        elif kind == 'default':
+            if doc != sig:
+                o.fail(P, f'{cname}.{method}', f'{param} = {sig}', f'the signature default of {param} ({sig}) differs from the documented default ({doc}): code that relies on the documented '
+                       'default behaves differently', file=c.mod.path, line=fn.lineno)
+            else:
+                o.witness((cname, method, param))
+        elif (cname, method, param) in unbounded or kind == 'optional':
+            if sig not in ("float('inf')", 'None', 'math.inf', 'inf'):
+                o.fail(P, f'{cname}.{method}', f'{param} = {sig}', f'{param} is documented as optional (absent = unbounded / not set) but defaults to {sig}', file=c.mod.path, line=fn.lineno)
+            else:
+                o.witness((cname, method, param))
